@@ -346,16 +346,16 @@ def parseL (strict fromText : Bool) : LSt → List Tok → POut (List LItem)
 /-! ## Parse-time filter (`medialist.py:129-152`) -/
 
 /-- the `for item in seq` loop; `seen` = `mediaTypes`, `final`/`comments` = `finalseq`/`commentseqonly`
-(newest first) -/
+(newest first); `mediaType = normalize(item.value.mediaType)`: media types are compared case-insensitively -/
 def canonGo : List LItem → List Cps → List LItem → List LItem → List LItem
   | [], _, final, _ => final.reverse
   | .comment c :: rest, seen, final, comments =>
     canonGo rest seen (.comment c :: final) (.comment c :: comments)
   | .query q :: rest, seen, final, comments =>
-    if q.mediaType.isEmpty then canonGo rest seen (.query q :: final) comments
-    else if isAllType q.mediaType then (.query q :: comments).reverse
-    else if seen.contains q.mediaType then canonGo rest seen final comments
-    else canonGo rest (q.mediaType :: seen) (.query q :: final) comments
+    if (normalize q.mediaType).isEmpty then canonGo rest seen (.query q :: final) comments
+    else if isAllType (normalize q.mediaType) then (.query q :: comments).reverse
+    else if seen.contains (normalize q.mediaType) then canonGo rest seen final comments
+    else canonGo rest (normalize q.mediaType :: seen) (.query q :: final) comments
 
 def canon (items : List LItem) : List LItem := canonGo items [] [] []
 
@@ -382,8 +382,15 @@ def queries (l : List LItem) : List MQ := l.filterMap fun | .query q => some q |
 /-- `[normalize(item.value.mediaType) for item in self]` -/
 def ntypes (l : List LItem) : List Cps := (queries l).map fun q => normalize q.mediaType
 
-/-- `MediaList.length` -/
+/-- `MediaList.length`, and `len(ml)`: the media are counted, not the comments (`medialist.py` `__len__`) -/
 def ML.length (m : ML) : Nat := (queries m.seq).length
+
+/-- `_seqindex`: position in `_seq` of the k-th medium -/
+def seqIndex : List LItem → Nat → Option Nat
+  | [], _ => none
+  | .comment _ :: r, k => (seqIndex r k).map (· + 1)
+  | .query _ :: _, 0 => some 0
+  | .query _ :: r, k + 1 => (seqIndex r k).map (· + 1)
 
 /-- `MediaList._setMediaText` (`medialist.py:77-152`); `raising` = `cssutils.log.raiseExceptions` -/
 def ML.setMediaText (m : ML) (raising fromText : Bool) (toks : List Tok) : ML × Outcome Unit :=
@@ -417,10 +424,13 @@ def findType (n : Cps) : List MQ → Option Nat
   | [] => none
   | q :: r => if normalize q.mediaType == n then some 0 else (findType n r).map (· + 1)
 
-/-- `deleteMedium` (`medialist.py:247-268`): `del self[i]` indexes `_seq`, comments included -/
+/-- `deleteMedium`: `del self[i]` deletes the i-th medium (`__delitem__` maps the index through `_seqindex`) -/
 def ML.deleteMedium (m : ML) (raising : Bool) (old : Cps) : ML × Outcome Unit :=
   match findType (normalize old) (queries m.seq) with
-  | some i => ({ m with seq := m.seq.eraseIdx i }, .ret ())   -- `del self._seq[i]`
+  | some i =>
+    match seqIndex m.seq i with
+    | some p => ({ m with seq := m.seq.eraseIdx p }, .ret ())
+    | none => (m, .raised .indexError)      -- not reachable: i < number of media
   | none => (m, if raising then .raised .notFound else .ret ())
 
 /-- `appendMedium` (`medialist.py:191-241`); returns the Python return value -/
@@ -466,18 +476,18 @@ def ML.setItem (m : ML) (raising : Bool) (index : Int) (t : MediumText) : ML × 
   | .raised e => (m, .raised e)
   | .ret none => (m, .ret ())
   | .ret (some q) =>
-    match pyIndex m.seq.length index with
+    -- `index = self._seqindex(index)`: a Python list index into the positions of the media
+    match (pyIndex (queries m.seq).length index).bind (seqIndex m.seq) with
     | none => (m, .raised .indexError)
-    | some k => ({ m with seq := dropSame (normalize q.mediaType) (m.seq.set k (.query q)) 0 k }, .ret ())
+    | some p => ({ m with seq := dropSame (normalize q.mediaType) (m.seq.set p (.query q)) 0 p }, .ret ())
 
 /-- `item(index)` (`medialist.py:270-278`): `self[index].mediaType`, `None` on IndexError -/
 def ML.item (m : ML) (index : Int) : Outcome (Option Cps) :=
-  match pyIndex m.seq.length index with
+  match pyIndex (queries m.seq).length index with
   | none => .ret none
   | some k =>
-    match m.seq[k]? with
-    | some (.query q) => .ret (some q.mediaType)
-    | some (.comment _) => .raised .attributeError
+    match (queries m.seq)[k]? with
+    | some q => .ret (some q.mediaType)
     | none => .ret none
 
 /-- iteration: `[mq.mediaType for mq in ml]` -/
@@ -551,7 +561,7 @@ def renderL : List LItem → Bool → Out → Out
 
 /-- `do_stylesheets_medialist` -/
 def ML.mediaText (m : ML) : Cps :=
-  if m.seq.isEmpty then cps "all" else Out.value (renderL m.seq true [])
+  if (queries m.seq).isEmpty then cps "all" else Out.value (renderL m.seq true [])
 
 /-! ## Token-level serialisation: the tokens `mediaText` consists of, S left out -/
 
@@ -570,6 +580,6 @@ def toksL : List LItem → Bool → List Tok
   | .query q :: r, first => (if first then [] else [commaTok]) ++ q.toks ++ toksL r false
 
 def ML.toks (m : ML) : List Tok :=
-  if m.seq.isEmpty then [{ typ := .ident, val := cps "all" }] else toksL m.seq true
+  if (queries m.seq).isEmpty then [{ typ := .ident, val := cps "all" }] else toksL m.seq true
 
 end CssVerif.Media
